@@ -38,6 +38,10 @@ type Case struct {
 	// Inner (in-callback only): the read issued on the same base handle from
 	// inside every FindInBatches callback.
 	Inner string `json:"inner,omitempty"`
+	// cursor-fault only: the result-set iteration of query #FaultQuery (0-based,
+	// in execution order) fails at row FaultRow (rows already delivered).
+	FaultQuery int `json:"fault_query,omitempty"`
+	FaultRow   int `json:"fault_row,omitempty"`
 	// Page (chain-return only): the Limit/Offset calls are made after the first
 	// finisher, on the handle it returned ("total + page"), instead of before it.
 	Page     bool   `json:"page,omitempty"`
@@ -63,6 +67,8 @@ func withBatch(name string, b int) string {
 
 func (c Case) String() string {
 	switch c.Mode {
+	case mFault:
+		return fmt.Sprintf("%s :: %s  [cursor fault: query #%d fails at row %d]", c.Chain.String(), withBatch(c.Path, c.Batch), c.FaultQuery+1, c.FaultRow)
 	case mInCB:
 		return fmt.Sprintf("%s :: base := chain%s; base -> %s with callback { base -> %s }", c.Chain.String(), handleCall(c.Handle), withBatch(c.Path, c.Batch), c.Inner)
 	case mSeq:
@@ -284,6 +290,9 @@ func tags(c Case) []string {
 	}
 	if no > 1 {
 		t = append(t, kind+"+offset-override")
+	}
+	if c.Mode == mFault {
+		t = append(t, "cursor-fault:"+kind)
 	}
 	if c.Mode == mInCB {
 		in := paths[pathIndex(c.Inner)]
